@@ -347,11 +347,114 @@ fn run_cfg<TC: ModelCfg>(args: &Args, rep: &Report) {
     }
 }
 
+// ---- (c) one-epoch lag over ALL histories: for every publish edge of the history walk (base alphabet
+// and the tree-shape alphabet) a cached read-only instance that saw the directory before the publish
+// (its Azks record and whatever the warm-up read are cached) answers every operation after the publish
+// was committed underneath it by another instance: reads of records it has not cached resolve against
+// the NEW storage while it still believes in the OLD epoch.
+struct LagVisitor<'r> {
+    rep: &'r Report,
+    par: AzksParallelismConfig,
+    family: &'static str,
+}
+
+impl<'r, TC: ModelCfg> HistVisitor<TC> for LagVisitor<'r> {
+    fn visit<'a>(&'a self, _ctx: &'a HistCtx<TC>) -> std::pin::Pin<Box<dyn std::future::Future<Output = ()> + 'a>> {
+        Box::pin(async {})
+    }
+    fn on_publish<'a>(&'a self, ev: &'a PubEvent<'a, TC>) -> std::pin::Pin<Box<dyn std::future::Future<Output = ()> + 'a>> {
+        Box::pin(async move {
+            let (Ok(eh), MPublish::NewEpoch(_)) = (ev.result, ev.expect) else { return };
+            let before = ev.before;
+            let mut published = before.published.clone();
+            published.push(eh.1);
+            let m = ev.model_after;
+            let old_labels: Vec<Vec<u8>> = before.model.users.keys().cloned().collect();
+            let labels: Vec<Vec<u8>> = m.users.keys().cloned().collect();
+            let mut warmups: Vec<(&str, Vec<Op>)> = vec![("epoch_hash", vec![Op::EpochHash])];
+            if let Some(l) = old_labels.first() {
+                warmups.push(("lookup_first", vec![Op::EpochHash, Op::Lookup(l.clone())]));
+            }
+            for (wn, warm) in warmups {
+                let rdb = before.db.fork().await;
+                let reader = RoDir::<TC>::new(manager(&rdb, CacheCfg::Default), before.vrf.clone(), self.par).await.expect("ReadOnlyDirectory::new");
+                for op in &warm {
+                    let _ = do_op::<TC, _>(&reader, None, op).await;
+                }
+                let writer = new_dir::<TC>(&rdb, &before.vrf, CacheCfg::None, self.par).await;
+                match writer.publish(to_akd_batch(ev.batch)).await {
+                    Ok(e2) if e2 == *eh => {}
+                    other => {
+                        self.rep.violation(
+                            format!("{}/{}/republish_differs", TC::NAME, self.family),
+                            json!({"history": show_history(&before.history), "batch": show_batch(ev.batch), "first": format!("{eh:?}"), "second": format!("{other:?}")}),
+                        );
+                        return;
+                    }
+                }
+                let mut ops: Vec<Op> = vec![Op::EpochHash];
+                for l in &labels {
+                    ops.push(Op::Lookup(l.clone()));
+                    ops.push(Op::History(l.clone(), HistoryParams::Complete));
+                    ops.push(Op::History(l.clone(), HistoryParams::MostRecent(1)));
+                }
+                if labels.len() >= 2 {
+                    ops.push(Op::BatchLookup(labels.clone()));
+                }
+                let e = m.epoch;
+                if e >= 2 {
+                    ops.push(Op::Audit(e - 2, e - 1));
+                    ops.push(Op::Audit(0, e - 1));
+                }
+                ops.push(Op::Audit(e - 1, e));
+                let mut fp = vec![];
+                for op in &ops {
+                    let res = do_op::<TC, _>(&reader, None, op).await;
+                    self.rep.eval(1);
+                    match judge_answer::<TC>(op, &res, m, &published, 0).await {
+                        Ok(a) => fp.push(a.map(|x| (x + 1 - e.min(x + 1)).to_string()).unwrap_or("E".into())),
+                        Err(b) => {
+                            fp.push("BAD".into());
+                            self.rep.violation(
+                                format!("{}/lag1_all_histories/{}/{}/{}", TC::NAME, self.family, wn, b.kind),
+                                json!({"history": show_history(&before.history), "then_published_underneath": show_batch(ev.batch), "reader_warmup": wn, "op": show_op(op), "detail": b.detail}),
+                            );
+                        }
+                    }
+                }
+                self.rep.distinct(format!("{}:lag1:{}:{}", TC::NAME, wn, fp.join("")));
+            }
+            self.rep.traces(1);
+        })
+    }
+}
+
+fn run_lag_all<TC: ModelCfg>(args: &Args, rep: &Report) {
+    let quick = args.quick();
+    let st2 = akd::append_only_zks::AzksParallelismOption::Static(2);
+    for par in [AzksParallelismConfig::disabled(), AzksParallelismConfig { insertion: st2, preload: st2 }] {
+        if quick && par != AzksParallelismConfig::disabled() {
+            continue;
+        }
+        let v = LagVisitor { rep, par, family: "base" };
+        let cfg = WalkCfg { alphabet: base_alphabet::<TC>(), depth: if quick { 2 } else { 3 }, cache: CacheCfg::None, par, threads: args.threads };
+        walk::<TC, _>(&cfg, &v);
+        for orient in 0..2 {
+            let v = LagVisitor { rep, par, family: "shape" };
+            let cfg = WalkCfg { alphabet: shape_batches::<TC>(orient), depth: if quick { 2 } else { 3 }, cache: CacheCfg::None, par, threads: args.threads };
+            walk::<TC, _>(&cfg, &v);
+        }
+    }
+    rep.note(format!("{} lag-1 over all histories: base alphabet and shape alphabets ({}; {})", TC::NAME, shape_alphabet::<TC>(0).note, shape_alphabet::<TC>(1).note));
+}
+
 pub fn run(args: &Args) -> i32 {
     let rep = Report::new("C13", &args.tier, "model_checking");
     run_cfg::<W>(args, &rep);
+    run_lag_all::<W>(args, &rep);
     if !args.quick() {
         run_cfg::<E>(args, &rep);
+        run_lag_all::<E>(args, &rep);
     }
     rep.finish(
         "one evaluation = one complete schedule of a scenario (writer publishes x reader operation x instance kind x cache x poller x lag), all schedules within the deviation bound (preemption, failing commit, or letting the poll timer fire first). Oracle per reader answer: Err, or an (epoch, hash) the directory really published together with a proof that verifies against it to DirModel's result as of that epoch; after n poller notifications answers come from an epoch >= warm epoch + n. distinct = distinct (scenario, per-reader answered epoch / Err) outcomes",
